@@ -82,3 +82,28 @@ def cache_stats_totals():
             return None
         return tot
     return None
+
+
+class WarningsAsErrors:
+    """
+    Process-wide setting seam: the interpreter's warning filter at "error"
+    (as under `python -W error` or pytest's `filterwarnings = error`) for the
+    duration of one call into the library.
+    """
+
+    def __init__(self, on):
+        self.on = on
+        self.cm = None
+
+    def __enter__(self):
+        if self.on:
+            import warnings
+
+            self.cm = warnings.catch_warnings()
+            self.cm.__enter__()
+            warnings.simplefilter("error")
+
+    def __exit__(self, *exc):
+        if self.cm is not None:
+            self.cm.__exit__(*exc)
+        return False
